@@ -247,7 +247,7 @@ Definition op_footprint (hw : hwcfg) (code param : Z) (r : regs) : footprint :=
          (if uses_ifm2 code param r then let v2 := ifm2_view r in tag_region (fv_region v2) (fm_segs v2) else []) ++
          (if (code =? cmd0_NPU_OP_CONV) || (code =? cmd0_NPU_OP_DEPTHWISE) then weight_reads hw r else []) ++
          (match lut with
-          | Some i => range_seg SHRAM (hw_lut_addr hw + i * 256) (if fv_elem iv =? 1 then 256 else 2048 - i * 256)
+          | Some i => range_seg SHRAM (hw_lut_addr hw + i * 256) (if fv_elem iv =? 2 then 2048 - i * 256 else 256)
           | None => [] end);
        fp_writes :=
          tag_region (fv_region ov) (fm_segs ov) ++
